@@ -59,8 +59,8 @@ CHECKS = {
    "Real worker timeouts (2 s doubling) bound the number of forced timeouts per scenario; timer-caused verdicts are only excluded when elapsed time is clearly below the timer.",
    "runtime monitoring: verdict/handler/peer event log vs batch-outcome reference rules", "5/C12"),
  "C13": ("banman component driver", "exploration",
-   "STORE half: the real banman store over a real bbolt DB under 500-op sequences of ban/unban/status/reopen over 25 addresses x 9 spellings x family-length masks x all reasons x clock-distant durations, against a model keyed by the canonical prefix; plus a small thorough-only set of real 2 s bans judged only clearly inside/outside the ban. ENFORCEMENT half (peers lacking services or serving provably invalid data are banned, disconnected and not re-admitted) is observed in the network simulation (added to this program when the L2 part lands).",
-   "Mixed-length masks are out of scope (the client never produces them); sub-second expiry truncation not asserted.",
+   "STORE half: the real banman store over a real bbolt DB under 500-op sequences of ban/unban/status/reopen over 25 addresses x 9 spellings x family-length masks x all reasons x clock-distant durations, against a model keyed by the canonical prefix; plus a small thorough-only set of real 2 s bans judged only clearly inside/outside the ban. ENFORCEMENT half (L2): the complete client against peers lacking witness/CF service bits, provable filter-header liars, consistent and checkpoint-only checkpoint liars, cfheaders-batch liars, invalid-block servers, and honest / stale / slow / merely disconnecting controls, as permanent ConnectPeers (redialled every 300 ms): every misbehaving peer whose misbehaviour the log shows was served must be in the reopened ban store with the right reason and IsBanned, no honest-class peer may be, connections handled after the ban must carry no request, none may stay open, and an honest peer stays connected.",
+   "Mixed-length masks are out of scope (the client never produces them); sub-second expiry truncation not asserted. Listed finding: a lone liar is believed and honest peers are banned afterwards (fixed scenario 2).",
    "runtime monitoring: model comparison of Status over all spellings after every operation", "5/C13"),
  "C14": ("chainimport component driver", "fault_enumeration",
    "The real headers import runs on real stores (pre-filled to chosen heights) over generated PoW-valid files: every start-height relation, length, batch size, overlap agreement/disagreement position, invalid header position (incl. index 0), 20 container faults, and the k-th store write failing; both stores are read back in full after Import and after a second Import and compared with 'previous contents extended by the file' (success) or the consistency conditions (failure).",
@@ -121,7 +121,7 @@ def main():
         "engines": [
             {"name": "L1 block-manager driver", "path": "harness/internal/l1", "serves_properties": ["C01", "C02", "C03", "C19"],
              "kind_free_text": "real blockManager + real headerfs stores, scripted network, synchronous message-at-a-time driving, store read-back after every step"},
-            {"name": "L2 network simulation", "path": "harness/internal/l2", "serves_properties": ["C03", "C04", "C05", "C06", "C17", "C18"],
+            {"name": "L2 network simulation", "path": "harness/internal/l2", "serves_properties": ["C03", "C04", "C05", "C06", "C13", "C17", "C18"],
              "kind_free_text": "the complete real ChainService through its public API against scripted wire peers reached through Config.Dialer; one child process per scenario"},
             {"name": "crash runner", "path": "harness/internal/c08", "serves_properties": ["C08"],
              "kind_free_text": "crash images at every File/DB boundary point and real SIGKILL of child processes, recovery oracle on reopen"},
